@@ -21,3 +21,4 @@ func verifRespBodyIsError(code string) bool              { return false }
 func verifRespBodyIsProof() bool                         { return false }
 func verifNoLocksHeld() bool                             { return true }
 func verifBodyWellFormed() bool                          { return true }
+func verifBeginInvocation()                              {}
